@@ -1157,7 +1157,7 @@ func TestC10BuildCancel(t *testing.T) {
 // closes nothing a second time - it does not hang, whatever happened to the
 // first call.
 func TestC12ClosePanics(t *testing.T) {
-	col := evid.New("C12", "panicking-close-methods", "configurations biased to disposable services in which the Close methods of a random third of the registrations panic; sequential histories over scope trees (contexts that nobody cancels, so that every Close is an explicit call of the harness) ending in provider close; then Close is called once more on every scope and on the provider, each call bounded by 10 s; oracle: every repeated Close returns (no hang), without panicking, with a nil error, and no instance receives a second Close call; what the first, panicking Close did is not judged; non-trivial = a panicking Close method actually ran")
+	col := evid.New("C12", "panicking-close-methods", "configurations biased to disposable services in which the Close methods of a random third of the registrations panic; sequential histories over scope trees (contexts that nobody cancels, so that every Close is an explicit call of the harness) ending in provider close; then Close is called once more on every scope and on the provider, each call bounded by 10 s; oracle: every repeated Close returns (no hang), without panicking, with a nil error, and no instance receives a second Close call; the Close calls of the history are judged by the rules of the error part with 'panicked' for 'returned an error' (everything owned is closed all the same, a disposal error exactly when a panicking Close method ran below the call); non-trivial = a panicking Close method actually ran")
 	defer col.Flush()
 	rapid.Check(t, func(rt *rapid.T) {
 		cfg := kit.GenConfig(rt, dispOpts())
@@ -1190,7 +1190,19 @@ func TestC12ClosePanics(t *testing.T) {
 		for _, e := range x.W.AllEntries() {
 			before[e] = e.CloseCount()
 		}
-		var f *Failure
+		// a Close method that panics has failed like one that returns an error: the Close calls of the
+		// history are judged by the rules of the error part (everything owned is closed all the same, a
+		// disposal error exactly when a failing Close method ran below the call, nil from repeated calls)
+		failing := map[int]bool{}
+		for _, e := range x.W.AllEntries() {
+			if x.W.ClosePanicRegs[e.Reg] {
+				failing[e.Serial] = true
+			}
+		}
+		f := x.checkC12(failing)
+		if f != nil {
+			f.Sig += "/close-panics"
+		}
 		again := func(what string, closeFn func() error) {
 			if f != nil {
 				return
